@@ -306,7 +306,7 @@ NSHARD = 16
 
 
 def plan(tier):
-    n = 300 if tier == 'quick' else 2000
+    n = 300 if tier == 'quick' else 4000
     return [{'kind': 'hyp', 'shard': i, 'examples': n} for i in range(NSHARD)]
 
 
